@@ -102,7 +102,25 @@ class Report(object):
         self._add(HOLDS, key, where, detail, rule)
 
     def violated(self, key, where, detail='', rule=None, path=None):
+        if getattr(self, '_fallback', None):
+            # the obligation's primary decision procedure (an abstract model of the function) could not evaluate the code at hand; the
+            # layout-bound predecessor still runs, but what it cannot match is an unrecognised shape, not positive evidence
+            self._add(UNDECIDED, key, where, '[{}] the layout-bound fallback does not recognise the code: {}'.format(self._fallback, detail), rule)
+            return
         self._add(VIOLATED, key, where, detail, rule, path)
+
+    def as_fallback(self, why):
+        rep = self
+
+        class _Ctx(object):
+            def __enter__(self_):
+                self_.prev = getattr(rep, '_fallback', None)
+                rep._fallback = why
+
+            def __exit__(self_, *a):
+                rep._fallback = self_.prev
+                return False
+        return _Ctx()
 
     def undecided(self, key, where, detail='', rule=None):
         self._add(UNDECIDED, key, where, detail, rule)
